@@ -778,7 +778,18 @@ type c12Result struct {
 
 const c12CaseTimeout = 20 * time.Second
 
+// On a machine that is badly overloaded a worker may not even get started
+// within the time limit; a case that timed out is run once more with a much
+// longer limit before "no answer" counts as what the implementation did.
 func c12RunIsolated(spec []byte) c12Result {
+	res, timedOut := c12RunIsolatedOnce(spec, c12CaseTimeout)
+	if timedOut {
+		res, _ = c12RunIsolatedOnce(spec, 6*c12CaseTimeout)
+	}
+	return res
+}
+
+func c12RunIsolatedOnce(spec []byte, limit time.Duration) (c12Result, bool) {
 	self, err := os.Executable()
 	if err != nil {
 		panic(err)
@@ -797,7 +808,7 @@ func c12RunIsolated(spec []byte) c12Result {
 	timedOut := false
 	select {
 	case <-done:
-	case <-time.After(c12CaseTimeout):
+	case <-time.After(limit):
 		timedOut = true
 		cmd.Process.Kill()
 		<-done
@@ -825,7 +836,7 @@ func c12RunIsolated(spec []byte) c12Result {
 		res.obs = append(res.obs, c12StepObs{R: c12Panic})
 		res.pmsg = "the process did not survive this step"
 		if timedOut {
-			res.pmsg += fmt.Sprintf(" (no answer within %v: killed)", c12CaseTimeout)
+			res.pmsg += fmt.Sprintf(" (no answer within %v: killed)", limit)
 		}
 		for _, ln := range strings.Split(stderr.String(), "\n") {
 			if strings.Contains(ln, "fatal error") || strings.HasPrefix(ln, "panic:") || strings.Contains(ln, "goroutine stack exceeds") {
@@ -834,7 +845,7 @@ func c12RunIsolated(spec []byte) c12Result {
 			}
 		}
 	}
-	return res
+	return res, timedOut
 }
 
 // the generated specs are executed ahead of time by a pool of workers
